@@ -820,4 +820,31 @@ theorem applyContentChanges_no_panic : ∀ (cs : List Impl.Change) (s : List Cha
     | rejected => simp
     | panic => exact absurd h this
 
+/-! ### Character boundaries -/
+
+theorem takeBytes_some : ∀ (s : List Char) (o : Nat) (pre : List Char),
+    Impl.takeBytes o s = some pre → ∃ post, s = pre ++ post ∧ o = len8 pre := by
+  intro s
+  induction s with
+  | nil =>
+    intro o pre h
+    simp only [Impl.takeBytes] at h
+    split at h
+    · cases h; exact ⟨[], rfl, by simp [len8]; omega⟩
+    · cases h
+  | cons c cs ih =>
+    intro o pre h
+    simp only [Impl.takeBytes] at h
+    split at h
+    · cases h; exact ⟨c :: cs, rfl, by simp [len8]; omega⟩
+    · split at h
+      · cases h' : Impl.takeBytes (o - utf8Len c) cs with
+        | none => simp [h'] at h
+        | some p =>
+          simp [h'] at h
+          subst h
+          obtain ⟨post, h1, h2⟩ := ih _ _ h'
+          exact ⟨post, by simp [h1], by simp [len8]; omega⟩
+      · cases h
+
 end TrustVerif.C14
